@@ -503,6 +503,10 @@ func runTester(e *Exec) (to testerObs, program string) {
 	switch {
 	case p:
 		to.class, to.msg, to.stack = "panic", msg, st
+	case rerr != nil && strings.Contains(rerr.Error(), "Panic occurred on running"):
+		// the test runner's last-resort recover() caught a Go panic of the interpreter: the run of this
+		// test file was aborted (ProcessTestSubroutine itself panics)
+		to.class, to.msg, to.stack = "panic", firstLine(rerr.Error()), "recovered by tester.Run (no stack): "+firstLine(rerr.Error())
 	case rerr != nil && strings.Contains(rerr.Error(), "Timeout"):
 		to.class, to.msg = "tester-timeout", firstLine(rerr.Error())
 	case rerr != nil:
